@@ -877,11 +877,10 @@ fn join_chunks(chunks: Vec<Chunk>, options: &FormattingOptions) -> String {
                     }
                 } else {
                     // If the line only consists of comments, move them to the 'code' column
-                    if line.len() > options.whitespace.label_margin + options.whitespace.code_margin
-                    {
-                        let (label_code, comment) = line.split_at(
-                            options.whitespace.label_margin + options.whitespace.code_margin,
-                        );
+                    // (the margins are columns, so split on a character and not on a byte boundary)
+                    let margin = options.whitespace.label_margin + options.whitespace.code_margin;
+                    if let Some((split, _)) = line.char_indices().nth(margin) {
+                        let (label_code, comment) = line.split_at(split);
                         if label_code.trim().is_empty() {
                             line = format!(
                                 "{:<width$}{}",
